@@ -1,7 +1,7 @@
 # bin/check configuration of property C15 (a single dict expression)
 {'harness': 'c15',
  'props': 'Props/C15.v',
- 'models': ['Model/Pipeline.v', 'Model/Eval.v'],
+ 'models': ['Model/Pipeline.v', 'Model/Eval.v', 'Model/Json.v', 'Model/Js.v'],
  'trusted': ['evaluator (ParseNode), json.Marshal, MD5/UUIDv3 and idr.JSONify2-encoding enter the theorems '
              'as Section variables; the node ID allocator (counter, sync.Pool as arbitrary-choice schedule, '
              'recycle) is modelled and its uniqueness invariant proved',
@@ -23,4 +23,12 @@
                  'with the C02 evaluator (Proofs/PipelineC02.v: *_c02 theorems) the evaluator hypotheses '
                  'eval_cache_transparent / eval_id_renaming / eval_caches_sound are discharged; what remains '
                  'assumed there is query_valid (the xpath engine returns nodes of the tree it runs on) and '
-                 'determinism of engine, externals and custom functions']}
+                 'determinism of engine, externals and custom functions',
+                 'canon_injective_json: numbers survive strconv (parsef (fmtf k) = k) and object keys are '
+                 'pairwise distinct (the hypotheses of C08 json_roundtrip); canon_injective_xml: the F12 '
+                 'guard xguard (no attributes on text-only elements, no text beside element children, '
+                 'distinct child names or a same-name array without attributes); inter-element whitespace '
+                 'text is outside the guard',
+                 '*_js theorems (Proofs/PipelineJs.v): evaluator-side caches = C20 jsstate, hypotheses '
+                 'discharged from C20 + C02; modelling variables jscalls / js_of / matches / cf_of and the '
+                 'pipeline-level F6 guard (jscalls_wf, jscalls_stable) remain']}
